@@ -424,6 +424,42 @@ fn minus_cases() -> Vec<(Case, bool)> {
     list.into_iter().map(|(s, e)| (tree_case("minus_and_parens", s.to_string(), &e, "literal minus / parentheses".into()), true)).collect()
 }
 
+// Every operator between every kind of left operand (names, literals, calls,
+// indexes, properties, parenthesised groups) and a literal / negative literal
+// / name on the right, under the four spacings `a - 1`, `a -1`, `a- 1`,
+// `a-1`: whether a `-` is an operator or the sign of a literal depends on
+// its being in operand position, never on the spacing or on which token ends
+// the left operand.
+fn spacing_cases() -> Vec<(Case, bool)> {
+    let mut lefts = operand_shapes();
+    lefts.extend(vec![
+        ("(a)", var("a")), ("(a * 2)", bin(Op::Mul, var("a"), int(2))), ("(a + 2)", bin(Op::Sum, var("a"), int(2))), ("f(x)(y)", call(call(var("f"), vec![var("x")]), vec![var("y")])),
+        ("f()", call(var("f"), vec![])), ("\"s\"", string("s")), ("[1]", list(vec![int(1)])), ("[a][0]", index(list(vec![var("a")]), int(0))), ("xs[:]", range_index(var("xs"), None, None)),
+        ("true", boolean(true)), ("null", null()), ("(-1)", int(-1)), ("o[\"k\"]", index(var("o"), string("k"))),
+    ]);
+    let rights: Vec<(&str, Expr)> = vec![("1", int(1)), ("-1", int(-1)), ("a", var("a")), ("(1)", int(1)), ("-1 - 2", int(0))];
+    let mut out = vec![];
+    for (ls, l) in &lefts {
+        for op in ALL_OPS.iter().map(|o| o.sym()).chain([".."]) {
+            for (rs, r) in &rights {
+                for (before, after) in [(" ", " "), (" ", ""), ("", " "), ("", "")] {
+                    let src = format!("{ls}{before}{op}{after}{rs}\n");
+                    let e = if *rs == "-1 - 2" {
+                        // A further `- 2` after the right operand: `L op -1 - 2`
+                        // groups by the tiers.
+                        let tier = |o: &str| if o == ".." { 1 } else { op_of(o).unwrap().tier() };
+                        if tier(op) >= 3 { bin(Op::Sub, mk(op, l.clone(), int(-1)), int(2)) } else { mk(op, l.clone(), bin(Op::Sub, int(-1), int(2))) }
+                    } else {
+                        mk(op, l.clone(), r.clone())
+                    };
+                    out.push((tree_case("operator_spacing", src, &e, format!("`{ls}` `{op}` `{rs}` with spacing '{before}' / '{after}'")), before != after || ls.ends_with(')') || ls.ends_with(']')));
+                }
+            }
+        }
+    }
+    out
+}
+
 // Value-level cross-check through the binary: integer / boolean operands
 // chosen so that different groupings give different results.
 fn value_check(ctx: &Ctx, n: u64) {
@@ -483,6 +519,9 @@ pub fn run(ctx: &Ctx) {
     }
     ctx.mark_exhaustive(&format!("all operator sequences of length 1..={maxlen} over 16 binary operators"));
     ctx.judge_all(minus_cases(), Via::Cli, None);
+    let sp = spacing_cases();
+    ctx.label_n("operator spacing x left operand kind", sp.len() as u64);
+    ctx.judge_all(sp, Via::Cli, None);
     ctx.judge_all(long_cases(), Via::Cli, None);
     ctx.judge_all(evaluated_chains(ctx), Via::Fast, None);
     ctx.judge_all(parenthesised_sums(ctx), Via::Fast, None);
